@@ -16,6 +16,8 @@ static ARMED: AtomicBool = AtomicBool::new(false);
 static LEAKED_BLOCKS: AtomicUsize = AtomicUsize::new(0);
 static FREES_SEEN: AtomicUsize = AtomicUsize::new(0);
 static WATCHED_FREES: AtomicUsize = AtomicUsize::new(0);
+static ORDER: AtomicUsize = AtomicUsize::new(0);
+static SIG: AtomicUsize = AtomicUsize::new(0);
 static THREAD_INLINE_LEAKS: AtomicUsize = AtomicUsize::new(0);
 static INLINE_CHECKED: AtomicUsize = AtomicUsize::new(0);
 static mut SECRET: [u8; 32] = [0; 32];
@@ -86,6 +88,16 @@ impl Keyed for PrivateKey {
     }
 }
 
+/// interleaving measure: the global order in which the threads began and ended their actions, folded into SIG
+struct Ticket(usize, usize);
+impl Drop for Ticket {
+    fn drop(&mut self) {
+        let t1 = ORDER.fetch_add(1, Ordering::SeqCst);
+        let h = (self.0 as u64 + 1).wrapping_mul(0x9E3779B97F4A7C15) ^ (self.1 as u64).wrapping_mul(0xBF58476D1CE4E5B9) ^ (t1 as u64).wrapping_mul(0x94D049BB133111EB);
+        SIG.fetch_add(h as usize, Ordering::SeqCst); // commutative: independent of which thread folds first
+    }
+}
+
 struct Slot<T>(std::cell::UnsafeCell<ManuallyDrop<T>>);
 unsafe impl<T> Sync for Slot<T> {}
 
@@ -129,6 +141,8 @@ fn round<T: Send + Sync + Clone + Keyed + Zeroize>(make: &dyn Fn() -> T, owners:
             let action = actions[i % 3];
             s.spawn(move || {
                 gate.wait();
+                let t0 = ORDER.fetch_add(1, Ordering::SeqCst);
+                let _end = Ticket(i, t0);
                 let me = unsafe { &mut *slot.0.get() };
                 match action {
                     // explicit zeroize() first, then the drop
@@ -222,6 +236,6 @@ fn main() {
             viol += 1;
         }
     }
-    println!("M1-STATS seed={seed} rounds={n} frees_seen={} watched_blocks_released={} inline_secrets_inspected={} violations={viol}", FREES_SEEN.load(Ordering::SeqCst), WATCHED_FREES.load(Ordering::SeqCst), INLINE_CHECKED.load(Ordering::SeqCst));
+    println!("M1-STATS seed={seed} rounds={n} frees_seen={} watched_blocks_released={} inline_secrets_inspected={} order_sig={} violations={viol}", FREES_SEEN.load(Ordering::SeqCst), WATCHED_FREES.load(Ordering::SeqCst), INLINE_CHECKED.load(Ordering::SeqCst), SIG.load(Ordering::SeqCst) % 1_000_000_007);
     std::process::exit(if viol > 0 { 1 } else { 0 });
 }
